@@ -494,6 +494,12 @@ def getitem(t, idx):
             if pos < back <= pos + l:
                 return getitem(sg, const(l - (back - pos)))
             pos += l
+    if tag(t) == 'dict' and not is_const(idx) and tag(idx) not in ('enum', 'phi') and 0 < len(t[1]) <= 16 \
+            and all(is_const(k_) for k_, _ in t[1]):
+        out = raise_('KeyError')
+        for k_, v_ in reversed(t[1]):
+            out = phi(eq(idx, k_), v_, out)
+        return out
     if tag(t) == 'dict' and tag(idx) == 'enum':
         for k, v in t[1]:
             if k == idx:
@@ -587,6 +593,10 @@ def _arith(name, pyf):
                 return _add_nary(rest)
             if a == b:
                 return const(0)
+        if name in ('BITXOR', 'BITOR', 'LSHIFT', 'RSHIFT') and b == const(0) and type(b[1]) is int:
+            return a
+        if name in ('BITXOR', 'BITOR') and a == const(0) and type(a[1]) is int:
+            return b
         return ('op', name, a, b)
     return f
 
@@ -628,6 +638,8 @@ def mul(a, b):
             return const(x[1] * y[1])
         if is_const(x) and isinstance(x[1], (bytes, str)) and type_of(y) == 'int':
             return ('op', 'REPB', x, y)
+        if tag(x) in ('list', 'tuple') and is_const(y) and type(y[1]) is int and len(x[1]) * max(y[1], 0) <= 4096:
+            return (x[0], x[1] * max(y[1], 0))
     return _MUL(a, b)
 
 
@@ -764,6 +776,17 @@ def not_(a):
         return const(not a[1])
     if is_op(a, 'NOT'):
         return a[2]
+    # negation normal form (De Morgan): the conjunction/disjunction stays outermost
+    if is_op(a, 'AND'):
+        out = FALSE
+        for x in a[2:]:
+            out = or_(out, not_(x))
+        return out
+    if is_op(a, 'OR'):
+        out = TRUE
+        for x in a[2:]:
+            out = and_(out, not_(x))
+        return out
     if tag(a) == 'phi':
         return phi(a[1], not_(a[2]), not_(a[3]))
     if tag(a) in ('list', 'tuple', 'dict'):
@@ -883,6 +906,11 @@ def phi(c, a, b):
         return c
     if a == FALSE and b == TRUE:
         return not_(c)
+    # fixed-shape sequences of equal length (and mappings with the same keys) are joined element by element
+    if tag(a) in ('list', 'tuple') and tag(b) == tag(a) and len(a[1]) == len(b[1]):
+        return (a[0], tuple(x if x == y else phi(c, x, y) for x, y in zip(a[1], b[1])))
+    if tag(a) == 'dict' and tag(b) == 'dict' and [k for k, _ in a[1]] == [k for k, _ in b[1]]:
+        return ('dict', tuple((k, (x if x == y else phi(c, x, y))) for (k, x), (_, y) in zip(a[1], b[1])))
     return ('phi', c, a, b)
 
 
@@ -910,6 +938,10 @@ def in_(x, container):
 
 
 def is_(a, b):
+    if tag(a) == 'phi':
+        return phi(a[1], is_(a[2], b), is_(a[3], b))
+    if tag(b) == 'phi':
+        return phi(b[1], is_(a, b[2]), is_(a, b[3]))
     if b == NONE or a == NONE:
         other = a if b == NONE else b
         t = type_of(other)
@@ -1102,15 +1134,39 @@ def phi_conditions(t):
     return out
 
 
+def _atoms(c, out):
+    if is_op(c, 'NOT'):
+        _atoms(c[2], out)
+    elif is_op(c, 'AND') or is_op(c, 'OR'):
+        for x in c[2:]:
+            _atoms(x, out)
+    elif is_op(c, 'BOOL') and tag(c[2]) == 'phi':
+        _atoms(c[2][1], out)
+        out.add(c)
+    elif not is_const(c):
+        out.add(c)
+
+
 def hoist(t, _depth=0):
-    """Canonical decision-tree form: every Phi is pulled to the root, conditions in a fixed order."""
+    """Canonical decision-tree form: Shannon expansion over the atomic predicates of all Phi conditions, in a fixed
+    order; compound conditions (and/or/not) are decided by their atoms."""
     conds = phi_conditions(t)
-    if not conds or _depth > 12:
+    if not conds or _depth > 24:
         return t
-    # prefer conditions that are not themselves inside other conditions' sub-terms: order by repr
-    c = sorted(conds, key=repr)[0]
+    atoms = set()
+    for c in conds:
+        _atoms(c, atoms)
+    if not atoms:
+        return t
+    c = sorted(atoms, key=repr)[0]
     a = assume(t, {c})
-    b = assume(t, set(_neg_facts(c)))
+    if is_op(c, 'EQ'):
+        # under x == <constant> the two are interchangeable: use the constant (so `return x` and `return 0` agree)
+        for x, y in ((c[2], c[3]), (c[3], c[2])):
+            if is_const(y) and not is_const(x) and isinstance(y[1], (int, str, bytes)) and not isinstance(y[1], bool):
+                a = subst(a, {x: y})
+                break
+    b = assume(t, {not_(c)})
     return phi(c, hoist(a, _depth + 1), hoist(b, _depth + 1))
 
 
